@@ -803,6 +803,7 @@ func ruleWIN3(c *Checker, sl *ssa.Function) {
 	c.decide(okQ, "WIN-3", "sendLoop|queue before first transmission", sl.Pos(), "addPacket(p) dominates sendPacket(p)", "a packet can be transmitted without being in the retransmission queue (or a different packet is queued)")
 	// resend: index phi from base snapshot, step (i+1)%s, until top snapshot, sends content[i]
 	var idx *ssa.Phi
+	var resendCall *ssa.Call
 	allInstrs(resend, func(in ssa.Instruction) {
 		call, ok := in.(*ssa.Call)
 		if !ok {
@@ -815,9 +816,27 @@ func ruleWIN3(c *Checker, sl *ssa.Function) {
 		if u, ok := unwrapLoadAlloc(call.Common().Args[0]).(*ssa.UnOp); ok && u.Op == token.MUL {
 			if ia, ok := u.X.(*ssa.IndexAddr); ok && isLoadOfField(ia.X, fContent) {
 				idx, _ = ia.Index.(*ssa.Phi)
+				resendCall = call
 			}
 		}
 	})
+	// every slot of the window is retransmitted: inside the loop no way leads from the loop head back
+	// to it without passing the transmission (a packet that is skipped - a ping, say - is NACKed by
+	// the receiver for ever, and everything behind it is never delivered)
+	if idx != nil && resendCall != nil {
+		head := idx.Block()
+		skipped := false
+		for _, sct := range head.Succs {
+			if !head.Dominates(sct) || !pathFromBlockEntryToBlock(sct, head, nil) {
+				continue // the exit edge
+			}
+			if pathFromBlockEntryToBlock(sct, head, func(in ssa.Instruction) bool { return in == ssa.Instruction(resendCall) }) {
+				skipped = true
+			}
+		}
+		c.decide(!skipped, "WIN-3", "resend|every slot between base and top is retransmitted", instrPos(resendCall), "each iteration of the resend loop passes the transmission",
+			"the resend loop can go on to the next slot without transmitting the current one: a skipped packet is never repaired")
+	}
 	okR := idx != nil
 	why := "the packet retransmitted is not content[i] with i the loop index"
 	if okR {
@@ -836,7 +855,7 @@ func ruleWIN3(c *Checker, sl *ssa.Function) {
 		okR = okR && nInit == 1 && nStep >= 1
 	}
 	c.decide(okR, "WIN-3", "resend|walks base..top by (i+1) % s sending content[i]", resend.Pos(), "resend retransmits exactly content[i] for i = base, base+1, ... (mod s)", why)
-	c.floor("WIN-3", 6)
+	c.floor("WIN-3", 7)
 }
 
 // ---------------------------------------------------------------------------
@@ -1869,4 +1888,36 @@ func nonSynKnown(b *ssa.BasicBlock) bool {
 		}
 	}
 	return false
+}
+
+// pathFromBlockEntryToBlock: some path leads from the entry of block `from` to the entry of
+// block `to` (one or more edges), avoiding instructions accepted by avoid.
+func pathFromBlockEntryToBlock(from, to *ssa.BasicBlock, avoid func(ssa.Instruction) bool) bool {
+	seen := map[*ssa.BasicBlock]bool{}
+	var walk func(b *ssa.BasicBlock) bool
+	walk = func(b *ssa.BasicBlock) bool {
+		for _, in := range b.Instrs {
+			if avoid != nil && avoid(in) {
+				return false
+			}
+		}
+		for _, s := range b.Succs {
+			if !edgeFeasible(b, s) {
+				continue
+			}
+			if s == to {
+				return true
+			}
+			if seen[s] {
+				continue
+			}
+			seen[s] = true
+			if walk(s) {
+				return true
+			}
+		}
+		return false
+	}
+	seen[from] = true
+	return walk(from)
 }
